@@ -301,7 +301,9 @@ func runC13(c *rt.Ctx) {
 	// must be right again - the concurrent streams below all run after this episode.
 	{
 		old := size.Formatter
-		size.Formatter = func(buf []byte, s size.Size, f size.Format) ([]byte, error) { return nil, errors.New("formatter refuses") }
+		size.Formatter = func(buf []byte, s size.Size, f size.Format) ([]byte, error) {
+			return nil, errors.New("formatter refuses")
+		}
 		c.Serial("failing-formatter-episode", func(w *rt.W) {
 			for _, s := range []size.Size{0, 1023, 1536 << 20, 1 << 30, ^size.Size(0)} {
 				for k := 0; k < 3; k++ {
